@@ -1,6 +1,7 @@
 """C09: exact integers; operators follow the manual's rules."""
 import itertools
 from values import *
+from values import from_json
 import sx
 
 RULE = ("operand pairs over integers straddling every boundary (isize, usize, 2^53, huge), floats, decimal literals and "
@@ -55,6 +56,25 @@ def gen(ctx):
                                                        O((S("b"), O((S("d"), I(3)))), (S("a"), I(5))), O((I(1), I(2))), I(2), I(0), I(-1), B(2), B(10 ** 30), F(2.0)]
     for a, b in itertools.product(others, repeat=2):
         cases.append(dict(filter=OPS_ERR, vars=[("a", a), ("b", b)], kind="nonnum"))
+    # nested objects: recursive merge and right-biased union, with a Python reference
+    def nested(depth):
+        ks = rng.sample(["a", "b", "c", "d"], rng.randint(1, 3))
+        d = {}
+        for k in ks:
+            r = rng.random()
+            if depth > 0 and r < 0.6:
+                d[k] = nested(depth - 1)
+            else:
+                d[k] = rng.choice([1, 2, None, "s", [1], {}])
+        return d
+    for _ in range(300 if tier == "quick" else 4000):
+        x, y = nested(3), nested(3)
+        cases.append(dict(filter="[($a * $b), ($a + $b), ($b * $a)]", vars=[("a", from_json(x)), ("b", from_json(y))], kind="obj-merge", py=(x, y)))
+    strs = ["", "a", "ab", "a,b", ",a,,b,", "aXbXc", "XX", "aaa", "\u00e9,\u00e9"]
+    seps = ["", ",", "X", "a", "aa", ",,", "\u00e9"]
+    for x in strs:
+        for sp in seps:
+            cases.append(dict(filter="[($a / $b), (($a / $b) | join($b)), ($a / $b | length)]", vars=[("a", S(x)), ("b", S(sp))], kind="split-join", py=(x, sp)))
     # metamorphic: representation independence of integer consumers
     smalls = [0, 1, -1, 2, -2, 3, 5, -5, 6, 65, 255, 256, -255, 1114111, 1114112, 2 ** 31, ISIZE_MAX, ISIZE_MIN, 2 ** 64 - 1, 2 ** 64, -2 ** 64]
     for z in smalls:
@@ -116,6 +136,36 @@ def oracle(c, impl, model=None):
             g = as_int(out[i])
             if g != w:
                 return ("int-exact", "integer result %s, exact value %d (operands %d, %d, op #%d)" % (sx.dumps(out[i]), w, x, y, i))
+    if c["kind"] == "obj-merge" and impl[2] == "end" and len(impl[1]) == 1:
+        x, y = c["py"]
+
+        def mul(l, r):
+            out = dict(l)
+            for k, v in r.items():
+                if k in out and isinstance(out[k], dict) and isinstance(v, dict):
+                    out[k] = mul(out[k], v)
+                else:
+                    out[k] = v
+            return out
+
+        def add(l, r):
+            out = dict(l)
+            out.update(r)
+            return out
+        got = impl[1][0][1:]
+        want = [from_json(mul(x, y)), from_json(add(x, y)), from_json(mul(y, x))]
+        for i, (g, w) in enumerate(zip(got, want)):
+            if g != w:
+                return ("obj-%s" % ("mul", "add", "mul")[i], "object %s differs from the manual's equation: got %s want %s" % (("*", "+", "*")[i], sx.dumps(g)[:200], sx.dumps(w)[:200]))
+    if c["kind"] == "split-join" and impl[2] == "end" and len(impl[1]) == 1:
+        x, sp = c["py"]
+        got = impl[1][0][1:]
+        if x != "" and sp != "":
+            want = x.split(sp)
+            if got[0] != from_json(want):
+                return ("split", "string / differs: %s" % sx.dumps(got[0]))
+        if x != "" and got[1] != from_json(x):
+            return ("split-join", "join is not the inverse of /: %s" % sx.dumps(got[1]))
     if c["kind"] == "consumer":
         # same consumer, same integer, other representation: identical behaviour
         key = (c["flt"], c["z"])
